@@ -301,6 +301,8 @@ func (ex *Explorer) merge(r *PathResult) {
 		rep.MaxUnwind = r.MaxUnwind
 	}
 	switch r.Outcome {
+	case "exit":
+		rep.PathsOK++ // the program under test ended the process deliberately (klog.Fatal / Exit)
 	case "ok":
 		rep.PathsOK++
 		if len(rep.Samples) < 6 && r.Sample != nil && (rep.PathsOK%7 == 1 || len(rep.Samples) == 0) {
